@@ -40,7 +40,7 @@ const maxCopies = 6
 const hangTimeout = 10 * time.Second
 
 // memExceeded is closed when the heap grows beyond memLimit (an endless loop that keeps appending).
-const memLimit = 1 << 30
+const memLimit = 300 << 20
 
 var memExceeded = make(chan struct{})
 
@@ -48,7 +48,7 @@ func init() {
 	go func() {
 		var ms runtime.MemStats
 		for {
-			time.Sleep(30 * time.Millisecond)
+			time.Sleep(10 * time.Millisecond)
 			runtime.ReadMemStats(&ms)
 			if ms.HeapAlloc > memLimit {
 				close(memExceeded)
@@ -227,8 +227,8 @@ func (o bdOp) deps() map[string]interface{} {
 	}
 }
 
-func newAnalysis(people bool) *leaves.BurndownAnalysis {
-	a := &leaves.BurndownAnalysis{Granularity: 30, Sampling: 30, TickSize: 24 * time.Hour}
+func newAnalysis(people, track bool) *leaves.BurndownAnalysis {
+	a := &leaves.BurndownAnalysis{Granularity: 30, Sampling: 30, TickSize: 24 * time.Hour, TrackFiles: track}
 	if people {
 		a.PeopleNumber = 3
 	}
@@ -299,25 +299,32 @@ func bdSharedSx(a *leaves.BurndownAnalysis) Sx {
 	for _, k := range rk {
 		rs = append(rs, L(I(k), I(unfname(rn[fname(k)]))))
 	}
+	var fh []int
+	for _, n := range a.VerifC08FileHistoryNames() {
+		fh = append(fh, unfname(n))
+	}
+	sort.Ints(fh)
 	return T("sh", cells("g", a.VerifC08GlobalHistory()), cells("ph", a.VerifC08PeopleHistories()),
-		cells("mx", a.VerifC08Matrix()), T("dels", Ints(dels).List...), T("ren", rs...))
+		cells("mx", a.VerifC08Matrix()), T("dels", Ints(dels).List...), T("ren", rs...), T("fh", Ints(fh).List...))
 }
 
 type bdRunner struct {
 	copies []*leaves.BurndownAnalysis
 	last   []string
+	lens   []map[int]int // tracked file lengths per copy, refreshed by every snapshot (for the generator)
 	obs    []Sx
 	failed bool
 }
 
-func newBdRunner(people bool) *bdRunner {
-	return &bdRunner{copies: []*leaves.BurndownAnalysis{newAnalysis(people)}, last: []string{""}}
+func newBdRunner(people, track bool) *bdRunner {
+	return &bdRunner{copies: []*leaves.BurndownAnalysis{newAnalysis(people, track)}, last: []string{""}}
 }
 
 // observe snapshots every copy; target = the copy the operation ran on (-1: none); a copy that existed
 // before and is not the target must not change: if it does the case stops here (its trees may be corrupt).
 func (r *bdRunner) observe(result string, target int, existing int) {
 	var cs []Sx
+	r.lens = make([]map[int]int, len(r.copies))
 	for i, a := range r.copies {
 		s := bdCopySx(a)
 		str := s.String()
@@ -329,6 +336,12 @@ func (r *bdRunner) observe(result string, target int, existing int) {
 				r.failed = true
 			}
 			r.last[i] = str
+		}
+		r.lens[i] = map[int]int{}
+		if f, ok := s.Field("files"); ok {
+			for _, e := range f.Args() {
+				r.lens[i][e.List[0].Int()] = len(e.List) - 1
+			}
 		}
 	}
 	sh := bdSharedSx(r.copies[0])
@@ -386,14 +399,11 @@ func (r *bdRunner) apply(o bdOp) (string, int) {
 	return "ok", o.copy
 }
 
-// lens returns the tracked lengths of one copy.
-func bdLens(a *leaves.BurndownAnalysis) map[int]int {
-	m := map[int]int{}
-	for _, n := range a.VerifC08FileNames() {
-		arr, _ := a.VerifC08Flatten(n)
-		m[unfname(n)] = len(arr)
+func (r *bdRunner) lensOf(i int) map[int]int {
+	if i < 0 || i >= len(r.lens) {
+		return nil
 	}
-	return m
+	return r.lens[i]
 }
 
 func keysOf(m map[int]int) []int {
@@ -590,7 +600,7 @@ func genBdChanges(rng *rand.Rand, lens map[int]int, merge bool, clean bool) []bd
 	return chs
 }
 
-func emitBd(c *Config, kind string, people bool, ops []bdOp, r *bdRunner) {
+func emitBd(c *Config, kind string, people, track bool, ops []bdOp, r *bdRunner) {
 	var os_ []Sx
 	forks, after := 0, 0
 	for _, o := range ops {
@@ -601,15 +611,16 @@ func emitBd(c *Config, kind string, people bool, ops []bdOp, r *bdRunner) {
 			after++
 		}
 	}
-	c.Emit(T("kind", A(kind)), T("nt", B(forks > 0 && after > 0)), T("people", B(people)), T("ops", os_...), T("obs", r.obs...))
+	c.Emit(T("kind", A(kind)), T("nt", B(forks > 0 && after > 0)), T("people", B(people)), T("track", B(track)), T("ops", os_...), T("obs", r.obs...))
 	stopIfHung(c)
 }
 
 func randomBd(c *Config) {
 	rng := c.Rng
 	people := rng.Intn(2) == 0
+	track := rng.Intn(2) == 0
 	clean := rng.Intn(100) < 70 // no irregular input at all in 70 % of the cases
-	r := newBdRunner(people)
+	r := newBdRunner(people, track)
 	var ops []bdOp
 	tick := 0
 	do := func(o bdOp) {
@@ -628,7 +639,7 @@ func randomBd(c *Config) {
 	// populate the origin
 	for k := 1 + rng.Intn(4); k > 0 && !r.failed; k-- {
 		tick += rng.Intn(3)
-		do(bdOp{kind: "consume", copy: 0, author: author(), tick: tick, chs: genBdChanges(rng, bdLens(r.copies[0]), false, clean)})
+		do(bdOp{kind: "consume", copy: 0, author: author(), tick: tick, chs: genBdChanges(rng, r.lensOf(0), false, clean)})
 	}
 	steps := 4 + rng.Intn(22)
 	for s := 0; s < steps && !r.failed; s++ {
@@ -650,18 +661,15 @@ func randomBd(c *Config) {
 			t = rng.Intn(tick + 1) // time going backwards on a branch
 		}
 		merge := rng.Intn(100) < 12
-		var lens map[int]int
-		if i < len(r.copies) {
-			lens = bdLens(r.copies[i])
-		}
+		lens := r.lensOf(i)
 		do(bdOp{kind: "consume", copy: i, author: author(), tick: t, merge: merge, chs: genBdChanges(rng, lens, merge, clean)})
 	}
-	emitBd(c, "bd", people, ops, r)
+	emitBd(c, "bd", people, track, ops, r)
 }
 
 // exhaustive small scope: one file of 3 lines, three copies, every sequence of two commits out of a
 // 3 copies x 9 changes alphabet
-func exhaustiveBd(c *Config, people bool) {
+func exhaustiveBd(c *Config, people, track bool) {
 	author := c08.AuthorMissing
 	if people {
 		author = 1
@@ -695,11 +703,11 @@ func exhaustiveBd(c *Config, people bool) {
 				}
 				ops = append(ops, bdOp{kind: "consume", copy: z / len(alphabet), author: a, tick: 1 + k, chs: alphabet[z%len(alphabet)]})
 			}
-			r := newBdRunner(people)
+			r := newBdRunner(people, track)
 			for _, o := range ops {
 				r.exec(o)
 			}
-			emitBd(c, "bdex", people, ops, r)
+			emitBd(c, "bdex", people, track, ops, r)
 		}
 	}
 }
@@ -711,15 +719,19 @@ func replayBd(c *Config, cs Sx) {
 	}
 	pf, _ := cs.Field("people")
 	people := pf.Args()[0].Int() != 0
+	track := false
+	if tf, ok := cs.Field("track"); ok {
+		track = tf.Args()[0].Int() != 0
+	}
 	f, _ := cs.Field("ops")
 	var ops []bdOp
-	r := newBdRunner(people)
+	r := newBdRunner(people, track)
 	for _, o := range f.Args() {
 		op := parseBdOp(o)
 		ops = append(ops, op)
 		r.exec(op)
 	}
-	emitBd(c, kind, people, ops, r)
+	emitBd(c, kind, people, track, ops, r)
 }
 
 // =====================================================================================================
@@ -1482,17 +1494,21 @@ func main() {
 		return
 	}
 	if os.Getenv("C08_ONLY") == "" {
-		exhaustiveBd(c, false)
-		exhaustiveBd(c, true)
+		exhaustiveBd(c, false, false)
+		exhaustiveBd(c, true, true)
+		if c.Thorough() {
+			exhaustiveBd(c, false, true)
+			exhaustiveBd(c, true, false)
+		}
 		exhaustiveRb(c)
 	}
-	for i := c.Count(700, 20000); i > 0; i-- {
+	for i := c.Count(2500, 40000); i > 0; i-- {
 		randomBd(c)
 	}
-	for i := c.Count(700, 20000); i > 0; i-- {
+	for i := c.Count(2500, 40000); i > 0; i-- {
 		randomRb(c)
 	}
-	for i := c.Count(600, 10000); i > 0; i-- {
+	for i := c.Count(1500, 20000); i > 0; i-- {
 		randomPl(c)
 	}
 }
